@@ -673,6 +673,116 @@ def run_mixed(ctx, model, focus):
     run_calls(ctx, model, focus, "mixed")
 
 
+def alter_reply(rng, reply):
+    """one alteration of a connected reply -> (description, bytes)"""
+    import struct
+    how = rng.choice(["status", "status", "status-ext", "encap", "encap", "cut", "cut", "cut-status", "flip", "empty-data", "service"])
+    out = bytearray(reply)
+
+    def relen(b):
+        struct.pack_into("<H", b, 2, max(0, len(b) - 24))
+        if len(b) >= 44:
+            struct.pack_into("<H", b, 42, max(0, len(b) - 44))
+        return bytes(b)
+    if how == "status" and len(out) > 49:
+        st = rng.choice([1, 4, 5, 6, 8, 0x10, 0x1E, 0x26, 0xFF])
+        return "status %#x" % st, relen(out[:48] + bytes([st, 0]))
+    if how == "status-ext" and len(out) > 49:
+        st, ext = rng.choice([(0xFF, [0x2105]), (0xFF, [0x2107]), (1, [0x0100]), (4, [0]), (5, [1, 2])])
+        return "status %#x ext %s" % (st, ext), relen(out[:48] + bytes([st, len(ext)]) + b"".join(struct.pack("<H", e) for e in ext))
+    if how == "encap" and len(out) >= 12:
+        st = rng.choice([1, 3, 0x64, 0x65, 0x69, 0x10000, 0x80000000])
+        struct.pack_into("<I", out, 8, st)
+        return "encapsulation status %#x" % st, bytes(out)
+    if how == "cut":
+        n = rng.choice([0, 2, 10, 12, 24, 40, 44, 46, 47, 48, 49, 50, 51, 52, rng.randint(0, max(0, len(out) - 1))])
+        return "cut to %d bytes" % min(n, len(out)), relen(out[:n]) if n >= 4 else bytes(out[:n])
+    if how == "cut-status" and len(out) > 52:
+        n = rng.randint(50, len(out) - 1)
+        return "cut to %d bytes" % n, relen(out[:n])
+    if how == "flip" and out:
+        i = rng.randrange(len(out))
+        out[i] ^= 1 << rng.randrange(8)
+        return "bit flipped in byte %d" % i, bytes(out)
+    if how == "empty-data" and len(out) > 50:
+        return "no data behind the status", relen(out[:50])
+    if how == "service" and len(out) > 46:
+        out[46] = rng.choice([0x4C, 0xCC, 0xD2, 0xCD, 0xD3, 0xCE, 0x8A, 0x00, 0xFF])
+        return "reply service %#x" % out[46], bytes(out)
+    return "unchanged", bytes(out)
+
+
+def run_altered(ctx, model, focus):
+    """read / write calls whose replies are scripted: the healthy call runs first (on both sides), then the same call is
+    repeated with the transport's queue pre-loaded with the healthy replies of which one is altered (error status with
+    or without extended status, non-zero encapsulation status, cut short, a flipped bit, another reply service).  The
+    real driver and the Lean driver send their frames to identical targets and read the same scripted replies: Tags,
+    exception classes and frames must agree; no call may raise a foreign exception."""
+    rng = ctx.rng
+    stream = "ld-altered"
+    n = ctx.budget(40, 400)
+    for i in range(n):
+        o = _open_pair(ctx, model, rng, stream)
+        if o is None:
+            continue
+        p, scn, cfg, pair = o
+        if pair.ld_status != "ok":
+            pair.close()
+            continue
+        kind = rng.choice(["read", "read", "write"])
+        if kind == "read":
+            args, shapes = gen_read_call(rng, p, cfg["program_tags"])
+            shown = list(args)
+        else:
+            args, shapes = gen_write_call(rng, p, cfg["program_tags"])
+            args = [(t, v) for t, v in args if _renderable(v)]
+            shown = [(t, sx.val(v)) for t, v in args]
+        if not args:
+            pair.close()
+            continue
+        r0 = len(pair.sock.replies)
+        impl, mod, line = pair.call(kind, args)
+        if mod is None or not compare_call(ctx, stream, dict(_case(ctx.seed, i, scn, cfg, [shown]), model_line=line[:3000], phase="healthy"), impl, mod):
+            pair.close()
+            continue
+        healthy = [r for r in pair.sock.replies[r0:]]
+        if not healthy or any(x is None for x in healthy):
+            pair.close()
+            continue
+        for rep in range(rng.choice([1, 2, 3])):
+            k = rng.randrange(len(healthy))
+            what, bad = alter_reply(rng, healthy[k])
+            scripted = list(healthy)
+            scripted[k] = bad
+            if rng.random() < 0.15:
+                scripted = scripted[:k + 1]          # and nothing scripted behind it: the target's own (stale) replies follow
+            pair.sock.pending[:] = list(scripted)
+            r = model.ask("ld.pending " + " ".join(sx.hexb(x) for x in scripted))
+            assert r == "ok", r
+            case = dict(_case(ctx.seed, i, scn, cfg, [shown]), altered_reply=k, of=len(healthy), alteration=what, scripted=[x.hex()[:400] for x in scripted][:6])
+            impl, mod, line = pair.call(kind, args)
+            pair.sock.pending[:] = []
+            model.ask("ld.pending")
+            ctx.case(stream, (stream, scn, repr(shown), k, what, rep))
+            ctx.count("%s/alteration/%s" % (stream, what.split(" ")[0]))
+            ctx.count("%s/kind/%s" % (stream, kind))
+            if mod is None:
+                ctx.count("%s/budget-exceeded" % stream)
+                break
+            ctx.count("%s/outcome/%s" % (stream, impl["result"][0] if impl["result"][0] != "raise" else "raise:" + str(impl["result"][1])))
+            if impl["result"][0] == "tags":
+                for t in impl["result"][1]:
+                    ctx.count("%s/tag/%s" % (stream, "ok" if t[3] == ("none",) else "error"))
+            if impl["result"][0] == "raise" and (str(impl["result"][1]).startswith("foreign") or impl["result"][1] == "hang") and focus in ("C13", "C03"):
+                ctx.violation("public-call-raises-foreign:%s" % str(impl["result"][1]).split(":")[-1],
+                              {k_: v_ for k_, v_ in case.items() if k_ != "scenario"}, "%s raised %s" % (kind, impl["result"][1]))
+            if not compare_call(ctx, stream, dict(case, model_line=line[:3000]), impl, mod):
+                break
+            if impl["result"][0] == "raise":
+                break
+        pair.close()
+
+
 # ------------------------------------------------------------------ LogixDriver.open() itself (Logix/Open.lean)
 
 def faults_sx(faults):
